@@ -5,12 +5,14 @@
 //@ include prelude/singletons.rs
 //@ include prelude/slices.rs
 //@ include prelude/indexmap.rs
+//@ include prelude/btreeset.rs
 verus! {
 
 //@ const actors/multisig/src/types.rs SIGNERS_MAX
 //@ item actors/multisig/src/types.rs TxnID attr="#[derive(Clone, Copy, PartialEq, Eq, Structural)]"
 //@ item actors/multisig/src/types.rs Transaction
 //@ item actors/multisig/src/state.rs State
+//@ item actors/multisig/src/types.rs ConstructorParams
 //@ item actors/multisig/src/types.rs ProposeParams
 //@ item actors/multisig/src/types.rs ProposeReturn
 //@ item actors/multisig/src/types.rs TxnIDParams
@@ -608,6 +610,43 @@ pub open spec fn self_call(rt: &Rt) -> bool { rt.msg.caller == rt.msg.receiver }
             &&& (!res->Ok_0.applied ==> !t0.approved@.contains(caller) && t0.approved@.len() + 1 < s0.num_approvals_threshold)
         }),
         res.is_err() ==> final(rt).sends@.len() == 0,
+//@ end
+
+// ======================= constructor: establishes 1 <= threshold <= signers <= 256, distinct signers, the lock =======================
+// derive(Default) of TxnID re-stated (derives are stripped); verified
+impl TxnID { pub fn default() -> (r: TxnID) ensures r.0 == 0 { TxnID(0) } }
+/// the ids behind the first n resolved signers are exactly the set, pairwise distinct
+pub open spec fn ctor_inv(rs: Seq<Address>, ids: Set<u64>, n: int) -> bool {
+    &&& rs.len() == n
+    &&& forall|i: int| 0 <= i < n ==> (#[trigger] rs[i]).proto == 0 && ids.contains(rs[i].id)
+    &&& forall|i: int, j: int| 0 <= i < j < n ==> rs[i] != rs[j]
+}
+//@ fn actors/multisig/src/lib.rs Actor::constructor free ret=res r19=0 sub0="next_tx_id : Default :: default ()=>next_tx_id: TxnID::default()" sub1="start_epoch : Default :: default ()=>start_epoch: 0" sub2="unlock_duration : Default :: default ()=>unlock_duration: 0"
+    requires !old(rt).in_tx@,
+    ensures
+        res.is_ok() ==> ({
+            let s = rt_state::<State>(final(rt).state_id@);
+            // only the init actor constructs a wallet
+            &&& old(rt).msg.caller == INIT_ACTOR_ADDR
+            // "1 <= threshold <= number of signers <= 256", signers distinct (as resolved ID addresses), one per requested signer
+            &&& ms_wf(s)
+            &&& s.signers@.len() == params.signers@.len() && s.num_approvals_threshold == params.num_approvals_threshold
+            &&& (forall|i: int| 0 <= i < s.signers@.len() ==> (#[trigger] s.signers@[i]).proto == 0)
+            // no pending transactions, ids start at 0
+            &&& txns_of(s) =~= Map::<TxnID, Transaction>::empty() && s.next_tx_id.0 == 0
+            // the vesting lock is exactly what was asked: nothing locked without a duration, otherwise the value received, linearly over the duration
+            &&& params.unlock_duration >= 0
+            &&& (params.unlock_duration == 0 ==> s.initial_balance@ == 0 && s.unlock_duration == 0 && s.start_epoch == 0)
+            &&& (params.unlock_duration != 0 ==> s.initial_balance@ == old(rt).msg.value_received@ && s.unlock_duration == params.unlock_duration
+                    && s.start_epoch == params.start_epoch)
+        }),
+        /*C11*/ res.is_ok() ==> final(rt).validated@.is_some(),
+//@ loop 0
+            invariant
+                __vx_i0 <= __vx_v0@.len(), __vx_v0@ == params.signers@,
+                ctor_inv(resolved_signers@, dedup_signers.view(), __vx_i0 as int),
+                !rt.in_tx@, rt.msg == old(rt).msg, rt.validated@.is_some(),
+            decreases __vx_v0@.len() - __vx_i0,
 //@ end
 
 } // verus!
